@@ -117,3 +117,7 @@ func TestVerifC02Composite(t *testing.T) {
 func TestVerifC03Composite(t *testing.T) {
 	vs.Run(t, "C03", func(c *vs.Case) error { return vw.PropC03(c, compositeFactory, "composite") })
 }
+
+func TestVerifC04Composite(t *testing.T) {
+	vs.Run(t, "C04", func(c *vs.Case) error { return vw.PropC04(c, compositeFactory) })
+}
